@@ -197,6 +197,8 @@ func TestVerifC06(t *testing.T) {
 			timex.VerifAdvance(20 * time.Second)
 			env.Jitter.SetJ(verifh.Atoi(c06Opt(op, "j", "500")))
 			dbfail := c06Opt(op, "db", "0") == "1"
+			// `nc=1`: the operation goes through the context-free wrapper of the entry point (QueryRow, Exec, DelCache, …)
+			nc := c06Opt(op, "nc", "0") == "1"
 			// `w=1`: the query reports an absent row with a WRAPPED not-found error (errors.Is semantics)
 			notFound := error(ErrNotFound)
 			if c06Opt(op, "w", "0") == "1" {
@@ -217,7 +219,7 @@ func TestVerifC06(t *testing.T) {
 			case "take":
 				pk := verifh.Atoi(op[1][1:])
 				var v c06Row
-				err := cc.QueryRowCtx(ctx, &v, key(op[1]), func(ctx context.Context, conn sqlx.SqlConn, v any) error {
+				q := func(ctx context.Context, conn sqlx.SqlConn, v any) error {
 					queries++
 					if dbfail {
 						return errC06DB
@@ -228,7 +230,13 @@ func TestVerifC06(t *testing.T) {
 					}
 					*v.(*c06Row) = r
 					return nil
-				})
+				}
+				var err error
+				if nc {
+					err = cc.QueryRow(&v, key(op[1]), func(conn sqlx.SqlConn, v any) error { return q(ctx, conn, v) })
+				} else {
+					err = cc.QueryRowCtx(ctx, &v, key(op[1]), q)
+				}
 				res = isNF(c06Err(err), err)
 				if err == nil {
 					res = fmt.Sprintf("val:r:%d:%d:%d", v.Id, v.V, v.A)
@@ -500,8 +508,7 @@ func TestVerifC06(t *testing.T) {
 			case "qindex":
 				a := verifh.Atoi(op[1][1:])
 				var v c06Row
-				err := cc.QueryRowIndexCtx(ctx, &v, key(op[1]), keyer,
-					func(ctx context.Context, conn sqlx.SqlConn, v any) (any, error) {
+				iq := func(ctx context.Context, conn sqlx.SqlConn, v any) (any, error) {
 						queries++
 						if dbfail {
 							return nil, errC06DB
@@ -516,8 +523,8 @@ func TestVerifC06(t *testing.T) {
 						}
 						*v.(*c06Row) = r
 						return pk, nil
-					},
-					func(ctx context.Context, conn sqlx.SqlConn, v, primary any) error {
+					}
+				pq := func(ctx context.Context, conn sqlx.SqlConn, v, primary any) error {
 						queries++
 						if dbfail {
 							return errC06DB
@@ -543,7 +550,15 @@ func TestVerifC06(t *testing.T) {
 						}
 						*v.(*c06Row) = r
 						return nil
-					})
+					}
+				var err error
+				if nc {
+					err = cc.QueryRowIndex(&v, key(op[1]), keyer,
+						func(conn sqlx.SqlConn, v any) (any, error) { return iq(ctx, conn, v) },
+						func(conn sqlx.SqlConn, v, primary any) error { return pq(ctx, conn, v, primary) })
+				} else {
+					err = cc.QueryRowIndexCtx(ctx, &v, key(op[1]), keyer, iq, pq)
+				}
 				res = isNF(c06Err(err), err)
 				if err == nil {
 					res = fmt.Sprintf("val:r:%d:%d:%d", v.Id, v.V, v.A)
@@ -551,14 +566,24 @@ func TestVerifC06(t *testing.T) {
 			case "get":
 				if op[1][0] == 'p' {
 					var v c06Row
-					err := cc.GetCacheCtx(ctx, key(op[1]), &v)
+					var err error
+					if nc {
+						err = cc.GetCache(key(op[1]), &v)
+					} else {
+						err = cc.GetCacheCtx(ctx, key(op[1]), &v)
+					}
 					res = isNF(c06Err(err), err)
 					if err == nil {
 						res = fmt.Sprintf("val:r:%d:%d:%d", v.Id, v.V, v.A)
 					}
 				} else {
 					var v any
-					err := cc.GetCacheCtx(ctx, key(op[1]), &v)
+					var err error
+					if nc {
+						err = cc.GetCache(key(op[1]), &v)
+					} else {
+						err = cc.GetCacheCtx(ctx, key(op[1]), &v)
+					}
 					res = isNF(c06Err(err), err)
 					if err == nil {
 						f, ok := v.(json.Number)
@@ -574,7 +599,7 @@ func TestVerifC06(t *testing.T) {
 				env.Begin(cache.VerifC06ModeNode, c06Opt(op, "c", ""))
 				how = "node"
 				w := strings.Split(op[2], ":")
-				_, err := cc.ExecCtx(ctx, func(ctx context.Context, conn sqlx.SqlConn) (sql.Result, error) {
+				ex := func(ctx context.Context, conn sqlx.SqlConn) (sql.Result, error) {
 					queries++
 					if dbfail {
 						return nil, errC06DB
@@ -597,19 +622,37 @@ func TestVerifC06(t *testing.T) {
 						panic("bad write " + op[2])
 					}
 					return nil, nil
-				}, keys...)
+				}
+				var err error
+				if nc {
+					_, err = cc.Exec(func(conn sqlx.SqlConn) (sql.Result, error) { return ex(ctx, conn) }, keys...)
+				} else {
+					_, err = cc.ExecCtx(ctx, ex, keys...)
+				}
 				res = c06Err(err)
 			case "del":
 				keys := keysOf(op[1])
 				env.Begin(cache.VerifC06ModeNode, c06Opt(op, "c", ""))
 				how = "node"
-				res = c06Err(cc.DelCacheCtx(ctx, keys...))
+				if nc {
+					res = c06Err(cc.DelCache(keys...))
+				} else {
+					res = c06Err(cc.DelCacheCtx(ctx, keys...))
+				}
 			case "set":
 				v, _ := c06Val(op[2])
-				res = c06Err(cc.SetCacheCtx(ctx, key(op[1]), v))
+				if nc {
+					res = c06Err(cc.SetCache(key(op[1]), v))
+				} else {
+					res = c06Err(cc.SetCacheCtx(ctx, key(op[1]), v))
+				}
 			case "setx":
 				v, _ := c06Val(op[2])
-				res = c06Err(cc.SetCacheWithExpireCtx(ctx, key(op[1]), v, time.Duration(verifh.Atoi64(op[3]))*time.Millisecond))
+				if nc {
+					res = c06Err(cc.SetCacheWithExpire(key(op[1]), v, time.Duration(verifh.Atoi64(op[3]))*time.Millisecond))
+				} else {
+					res = c06Err(cc.SetCacheWithExpireCtx(ctx, key(op[1]), v, time.Duration(verifh.Atoi64(op[3]))*time.Millisecond))
+				}
 			case "raw":
 				_, raw := c06Val(op[2])
 				env.Raw(op[1], raw, time.Duration(verifh.Atoi64(op[3]))*time.Millisecond)
@@ -891,10 +934,14 @@ func c06Gen(r *verifh.Rng) []verifh.Section {
 		// are spread over a subset (` i=a+b`)
 		inst, ni := cache.VerifC06GenInsts(r.Intn, nodes, exp, nf)
 		iv := func() string {
-			if ni == 1 {
-				return ""
+			nc := ""
+			if r.Chance(1, 4) {
+				nc = " nc=1" // through the context-free wrapper of the entry point
 			}
-			return fmt.Sprintf(" i=%d", r.Intn(ni))
+			if ni == 1 {
+				return nc
+			}
+			return fmt.Sprintf("%s i=%d", nc, r.Intn(ni))
 		}
 		ivs := func() string {
 			if ni == 1 {
